@@ -363,6 +363,35 @@ async fn an_unknown_type_is_refused_and_writes_nothing() {
 }
 
 #[tokio::test]
+async fn a_statement_refused_at_commit_leaves_no_shell_behind() {
+    // Key identity is checked at commit, after planning minted a shell for
+    // every handle. A refusal there is a refusal of the whole statement like
+    // any other: the shells go, including the ones of clauses that were fine.
+    let nexus = nexus("refused_at_commit").await;
+    let response = run(
+        &nexus,
+        r#"MUTATE {
+             CREATE CONCEPT ?a { TYPE "Preference" NAME "One" SET FIELDS {key: "dark"} }
+             CREATE CONCEPT ?b { TYPE "Preference" NAME "Two" SET FIELDS {key: "dark"} }
+             CREATE ACTIVITY ?x { SET FIELDS {activity_class: "reflection"} }
+           }"#,
+    )
+    .await;
+    assert_eq!(
+        response.error.as_ref().unwrap().code.as_str(),
+        "IdentityConflict"
+    );
+
+    let seen = ok(
+        &nexus,
+        r#"FIND(COUNT(?x)) WHERE { ?x ACTIVITY {state: "pending"} }"#,
+    )
+    .await;
+    assert_eq!(seen, json!([0]), "no query can see what it left, because it left nothing");
+    assert_eq!(nexus.store.sweep_pending().await.unwrap(), 0);
+}
+
+#[tokio::test]
 async fn a_duplicate_handle_is_refused_rather_than_resolved_arbitrarily() {
     // Spec §25: two clauses binding `?x` leave every reference to it
     // ambiguous, and picking either one would be a guess.
